@@ -1,71 +1,66 @@
 (* C12 - LLSD forms are faithful.  Property theorems only: each is closed by
    [exact] and followed by [Print Assumptions].  Models: Llsd/Llsd.v,
-   Llsd/LlsdBinary.v, Llsd/LlsdString.v, Llsd/LlsdNotation.v (tied to
-   hippolyzer/lib/base/llsd.py and the llsd package by harness/props/c12.py).
+   Llsd/LlsdBinary.v, Llsd/LlsdString.v, Llsd/LlsdNotation.v,
+   Llsd/LlsdNotationParse.v, Llsd/LlsdMsg.v (tied to hippolyzer/lib/base/llsd.py,
+   message/data_packer.py and the llsd package by harness/props/c12.py).
 
-   [ut] is the one place where the model follows a probe of the live code:
-   ut = false is the code as it stands (a URI is written with the string tag),
-   ut = true the repaired branch order.  Every theorem below that mentions
-   [ut] holds for both.
+   The binary model carries one flag, [ut] = "a URI is written with its own
+   tag".  The code as it stands (since fix 22af88d) is ut = true; the harness
+   probes the live formatter and drives the extracted model with the value it
+   finds.  ut = false is the code before the fix and is kept as history.
 
-   Not proved here (covered by correspondence / impl-level oracle only, see
-   TRUSTED in harness/props/c12.py): notation parsing of non-string values
-   (not_roundtrip for whole trees), XML, zlib, message<->LLSD packing. *)
+   Not proved here (correspondence / impl-level oracle only, see TRUSTED in
+   harness/props/c12.py): XML, zlib, float()/repr() and the date string
+   functions (abstract oracles below), the message template lookup. *)
 From Coq Require Import NArith ZArith List Bool.
-From HV Require Import Llsd.Llsd Llsd.LlsdString Llsd.LlsdBinary Llsd.LlsdNotation Llsd.LlsdMsg
-  Llsd.LlsdStringProofs Llsd.LlsdBinaryProofs Llsd.LlsdNotationProofs Llsd.LlsdMsgProofs.
+From HV Require Import Llsd.Llsd Llsd.LlsdString Llsd.LlsdBinary Llsd.LlsdNotation Llsd.LlsdNotationParse Llsd.LlsdMsg
+  Llsd.LlsdStringProofs Llsd.LlsdBinaryProofs Llsd.LlsdNotationProofs Llsd.LlsdNotationParseProofs Llsd.LlsdMsgProofs.
 Import ListNotations.
 Open Scope N_scope.
 
-(* ---------- binary ---------- *)
+(* ---------- binary: the code as it stands ---------- *)
 
-(* bin_roundtrip: llsd.parse_binary (llsd.format_binary v, with or without
-   header) returns canon v for every well-formed v (ints in S32, lengths below
-   2^31, strings UTF-8, distinct keys, 16-byte UUIDs, 64-bit reals/dates) *)
-Theorem C12_bin_roundtrip : forall ut hdr v,
-  wf v = true -> parse_binary (format_binary ut hdr v) = Some (canon ut v).
-Proof. exact parse_binary_format. Qed.
+(* bin_roundtrip, full strength: llsd.parse_binary (llsd.format_binary v, with
+   or without header) returns v itself - same value, same LLSD type, same date
+   bits - for every well-formed v (ints in S32, lengths below 2^31, strings
+   UTF-8, distinct keys, 16-byte UUIDs, 64-bit reals/dates) *)
+Theorem C12_bin_roundtrip : forall hdr v,
+  wf v = true -> parse_binary (format_binary true hdr v) = Some v.
+Proof. exact bin_roundtrip_tagged. Qed.
 Print Assumptions C12_bin_roundtrip.
 
 (* exact consumption: the parser stops at the end of the value, whatever follows *)
-Theorem C12_bin_exact_consumption : forall ut v rest,
-  wf v = true -> parse_bin_rest (fmt_bin ut v ++ rest) = Some (canon ut v, rest).
-Proof. exact parse_bin_rest_fmt. Qed.
+Theorem C12_bin_exact_consumption : forall v rest,
+  wf v = true -> parse_bin_rest (fmt_bin true v ++ rest) = Some (v, rest).
+Proof. exact parse_bin_rest_tagged. Qed.
 Print Assumptions C12_bin_exact_consumption.
-
-(* the statement of the property for the code as it stands: unchanged (same
-   value, same type, same date bits) for every well-formed value without URIs *)
-Theorem C12_bin_roundtrip_unchanged : forall hdr v,
-  wf v = true -> no_uri v = true -> parse_binary (format_binary false hdr v) = Some v.
-Proof. exact bin_roundtrip_exact. Qed.
-Print Assumptions C12_bin_roundtrip_unchanged.
-
-(* full-strength statement "forall v, wf v -> parse_binary (format_binary false hdr v) = Some v"
-   is false of the code as it stands: *)
-Theorem C12_bin_roundtrip_refuted :
-  exists v, wf v = true /\ parse_binary (format_binary false false v) = Some (Str [97]) /\ v = Uri [97].
-Proof. exact bin_uri_refuted. Qed.
-Print Assumptions C12_bin_roundtrip_refuted.
-
-(* ... and true at full strength once URIs are written with their own tag *)
-Theorem C12_bin_roundtrip_tagged : forall hdr v,
-  wf v = true -> parse_binary (format_binary true hdr v) = Some v.
-Proof. exact bin_roundtrip_tagged. Qed.
-Print Assumptions C12_bin_roundtrip_tagged.
-
-(* type_preserved: the LLSD type that comes back is the one that went in,
-   except URI -> string when ut = false *)
-Theorem C12_bin_type_preserved : forall ut v,
-  tag (canon ut v) = if negb ut && (tag v =? 7) then 4 else tag v.
-Proof. exact tag_canon. Qed.
-Print Assumptions C12_bin_type_preserved.
 
 (* zipped form: zlib is a third-party oracle, assumed lossless *)
 Theorem C12_zip_roundtrip : forall (zc zd : list N -> list N),
   (forall x, zd (zc x) = x) ->
-  forall ut v, wf v = true -> parse_binary (zd (zc (format_binary ut false v))) = Some (canon ut v).
-Proof. exact zip_roundtrip. Qed.
+  forall v, wf v = true -> parse_binary (zd (zc (format_binary true false v))) = Some v.
+Proof. exact zip_roundtrip_tagged. Qed.
 Print Assumptions C12_zip_roundtrip.
+
+(* ---------- binary: history (before fix 22af88d, ut = false) ---------- *)
+
+(* both branch orders at once; canon false turns a URI into a string *)
+Theorem C12_hist_bin_roundtrip_any : forall ut hdr v,
+  wf v = true -> parse_binary (format_binary ut hdr v) = Some (canon ut v).
+Proof. exact parse_binary_format. Qed.
+Print Assumptions C12_hist_bin_roundtrip_any.
+
+(* the defect that was repaired: with the old order the statement was false *)
+Theorem C12_hist_bin_untagged_refuted :
+  exists v, wf v = true /\ parse_binary (format_binary false false v) = Some (Str [97]) /\ v = Uri [97].
+Proof. exact bin_uri_refuted. Qed.
+Print Assumptions C12_hist_bin_untagged_refuted.
+
+(* the LLSD type that comes back: changed for URIs only, and only when ut = false *)
+Theorem C12_hist_bin_type : forall ut v,
+  tag (canon ut v) = if negb ut && (tag v =? 7) then 4 else tag v.
+Proof. exact tag_canon. Qed.
+Print Assumptions C12_hist_bin_type.
 
 (* ---------- message <-> LLSD packing table (dict form) ---------- *)
 
@@ -120,6 +115,39 @@ Theorem C12_not_key_uri_leak : forall rreal rdate,
 Proof. intros rreal rdate. split; [exact (key_leaks_nl rreal rdate) | exact (uri_leaks_nl rreal rdate)]. Qed.
 Print Assumptions C12_not_key_uri_leak.
 
+(* not_roundtrip, whole values: llsd.parse_notation (llsd.format_notation v)
+   returns v itself for every well-formed v (strings, URIs and keys UTF-8,
+   distinct keys, 16-byte UUIDs; integers unbounded).
+   repr(float)/float() and _format_datestr()/_parse_datestr() are library
+   functions, abstracted as rreal/preal and rdate/pdate with
+     - two lexical hypotheses: _real_regex matches exactly repr(x) in front of
+       a separator, and the date string is plain ASCII without quote/backslash
+       (both checked by the harness on every rendering it meets);
+     - per value, oracles_ok v: float(repr(x)) = x for its reals (excludes NaN
+       payloads) and _parse_datestr(_format_datestr(d)) = d for its dates.
+       The latter is FALSE of the llsd package for ~3% of microsecond values
+       (known finding date-microseconds-truncated-notation): such dates are
+       excluded by this hypothesis, not covered by the theorem.
+   The sized forms s(size)/b(size) are never emitted by the formatter and are
+   not in the model. *)
+Theorem C12_not_roundtrip : forall (rreal rdate : N -> list N) (preal pdate : list N -> option N),
+  (forall b rest, stopb rest = true -> scan_real (rreal b ++ rest) = Some (rreal b, rest)) ->
+  (forall b, forallb plain_byte (rdate b) = true) ->
+  forall v, wfn v = true -> oracles_ok rreal rdate preal pdate v = true ->
+  parse_not preal pdate (fmt_not rreal rdate v) = Some v.
+Proof. exact parse_not_fmt. Qed.
+Print Assumptions C12_not_roundtrip.
+
+(* exact consumption: in front of nothing, a comma or a closing bracket the
+   parser stops exactly at the end of the value *)
+Theorem C12_not_exact_consumption : forall (rreal rdate : N -> list N) (preal pdate : list N -> option N),
+  (forall b rest, stopb rest = true -> scan_real (rreal b ++ rest) = Some (rreal b, rest)) ->
+  (forall b, forallb plain_byte (rdate b) = true) ->
+  forall v rest, wfn v = true -> oracles_ok rreal rdate preal pdate v = true -> stopb rest = true ->
+  parse_not_rest preal pdate (fmt_not rreal rdate v ++ rest) = Some (v, rest).
+Proof. exact parse_not_rest_fmt. Qed.
+Print Assumptions C12_not_exact_consumption.
+
 (* ---------- non-vacuity ---------- *)
 
 Definition ex_tree : llsd :=
@@ -132,13 +160,14 @@ Example C12_ex_wf : wf ex_tree = true /\ no_uri ex_tree = false /\ keys_uris_nl_
 Proof. vm_compute. repeat split. Qed.
 
 Example C12_ex_roundtrip :
-  parse_binary (format_binary false true ex_tree) = Some (canon false ex_tree)
+  parse_binary (format_binary true true ex_tree) = Some ex_tree
   /\ parse_binary (format_binary true false ex_tree) = Some ex_tree
+  /\ parse_binary (format_binary false true ex_tree) = Some (canon false ex_tree)
   /\ canon false ex_tree <> ex_tree.
 Proof. vm_compute. repeat split. discriminate. Qed.
 
 Example C12_ex_bytes :
-  format_binary false false (Map [([97], Arr [Int (-5); Date 0])])
+  format_binary true false (Map [([97], Arr [Int (-5); Date 0])])
   = [123; 0; 0; 0; 1; 107; 0; 0; 0; 1; 97; 91; 0; 0; 0; 2; 105; 255; 255; 255; 251;
      100; 0; 0; 0; 0; 0; 0; 0; 0; 93; 125].
 Proof. vm_compute. reflexivity. Qed.
@@ -166,3 +195,29 @@ Example C12_ex_msg :
                             (MVT_LLVector3, Arr [Real 4; Real 5; Real 6]); (MVT_VARIABLE, Str [104; 105]);
                             (MVT_U32, Bin [255; 255; 255; 255])]].
 Proof. vm_compute. split; reflexivity. Qed.
+
+(* the hypotheses of C12_not_roundtrip are satisfiable, and the theorem's
+   conclusion on a concrete tree with every constructor *)
+Definition ex_rreal (b : N) : list N := if b =? 4609434218613702656 then [49; 46; 53] else [45; 49; 101; 45; 51; 48].
+Definition ex_preal (t : list N) : option N :=
+  match t with [49; 46; 53] => Some 4609434218613702656 | _ => Some 13165911115232485376 end.
+Definition ex_rdate (b : N) : list N := [50; 48; 50; 48; 45; 48; 49; 45; 48; 50; 84; 48; 51; 58; 48; 52; 58; 48; 53; 90].
+Definition ex_pdate (t : list N) : option N := Some 4743174593368195072.
+
+Example C12_ex_not_hyps :
+  (forall b rest, stopb rest = true -> scan_real (ex_rreal b ++ rest) = Some (ex_rreal b, rest))
+  /\ (forall b, forallb plain_byte (ex_rdate b) = true)
+  /\ wfn ex_tree = true /\ oracles_ok ex_rreal ex_rdate ex_preal ex_pdate ex_tree = true.
+Proof.
+  split; [|repeat split].
+  intros b [|c r] H; unfold ex_rreal; destruct (b =? 4609434218613702656); try reflexivity;
+    cbn [stopb] in H; apply orb_prop in H as [H|H]; [apply orb_prop in H as [H|H]| | apply orb_prop in H as [H|H]|];
+    apply N.eqb_eq in H; subst c; reflexivity.
+Qed.
+
+Example C12_ex_not_roundtrip :
+  parse_not ex_preal ex_pdate (fmt_not ex_rreal ex_rdate ex_tree) = Some ex_tree
+  /\ parse_not_rest ex_preal ex_pdate (fmt_not ex_rreal ex_rdate ex_tree ++ [44; 105; 53]) = Some (ex_tree, [44; 105; 53])
+  /\ parse_not ex_preal ex_pdate [123; 39; 97; 39; 58; 105; 43; 48; 55; 44; 32; 34; 97; 34; 58; 91; 116; 44; 70; 32; 93; 125]
+     = Some (Map [([97], Arr [Bool true; Bool false])]).
+Proof. vm_compute. repeat split. Qed.
